@@ -368,11 +368,13 @@ func c13TypedTrailers(yield func(*c13Case)) {
 // ---------------------------------------------------------------- duplicate keys at every nesting level
 
 // c13DupKeyDocs enumerates JSON documents completely up to a nesting bound:
-//   level 2: every value of depth <= 2 over scalars {1,"a",null}, keys {a,b},
-//            objects of <= 2 members, arrays of <= 2 elements;
-//   deeper:  every value of depth <= 2 over the scalar {1} (same shapes), put
-//            into each of seven wrappers that add one or two levels of array /
-//            object nesting (so a duplicate sits below arrays, objects and mixes).
+//
+//	level 2: every value of depth <= 2 over scalars {1,"a",null}, keys {a,b},
+//	         objects of <= 2 members, arrays of <= 2 elements;
+//	deeper:  every value of depth <= 2 over the scalar {1} (same shapes), put
+//	         into each of seven wrappers that add one or two levels of array /
+//	         object nesting (so a duplicate sits below arrays, objects and mixes).
+//
 // The oracle (does any object of the document repeat a key?) is computed on the
 // generator's own tree, not by parsing.
 type c13Doc struct {
